@@ -581,5 +581,17 @@ fn main() {
         emit(&mut r, fmt, &o, &data, None, "farrep");
         FIRST_WRITE.store(0, std::sync::atomic::Ordering::Relaxed);
     }
+    // (7) only in builds with the verification hooks (the C15 builds): the match finders' aligned tables are
+    //     allocated for dict_size + 1 / 2 * (dict_size + 1) entries and renormalised over the whole slice they hand
+    //     out (in a real run only after 2 GiB of input): the SIMD loop must stay inside the allocation
+    #[cfg(hasenbanck_lzma_rust2_verif)]
+    for (k, dict) in [4096usize, 4097, 5000, 65536, 100_003, (1 << 20) + 5].iter().enumerate() {
+        for len in [dict + 1, 2 * (dict + 1), 1 << 10, 1 << 16] {
+            let off = 0x7FFF_FFFF - (*dict as i32 + 1);
+            let (n, sum) = lzma_rust2::verif_hooks::lz_aligned_table_normalize(len, off);
+            idx_cell.set(idx_cell.get() + 1);
+            println!("case {} aligned-normalize-{k} table d{dict} c0 len={len} enc {}:{:016x}", idx_cell.get(), n, sum);
+        }
+    }
     println!("end {}", idx_cell.get());
 }
